@@ -29,6 +29,18 @@ class Boom(Exception):
         super().__init__('boom %r' % (tag,))
         self.tag = tag
 
+    def __deepcopy__(self, memo):
+        return self
+
+
+def norm(v):
+    """exceptions that travel as ordinary VALUES (error.map(lambda e: e)) are compared by the item that raised them"""
+    if isinstance(v, Boom):
+        return ('exc-as-value', v.tag)
+    if isinstance(v, (list, tuple)):
+        return type(v)(norm(x) for x in v) if type(v) in (list, tuple) else v
+    return v
+
 
 OPS = ['map', 'starmap', 'filter', 'scan']
 HANDLERS = ['ignore', 'map', 'router', 'none']
@@ -101,6 +113,8 @@ MAPVAL = ['tagged']
 def mapper(e):
     # the replacement item may be any value, also None / 0 / False / ''
     v = MAPVAL[0]
+    if v == 'exc':
+        return e            # keep the error in place, as a value
     return ('mapped', e.tag) if v == 'tagged' else {'none': None, 'zero': 0, 'false': False, 'empty': ''}[v]
 
 
@@ -162,17 +176,36 @@ def run(case):
 
         def d_err(e):
             dead.error = e
-        errors.subscribe(on_next=d_next, on_error=d_err, on_completed=d_done)
+        late = bool(case.get('late_dead'))
+        if not late:
+            errors.subscribe(on_next=d_next, on_error=d_err, on_completed=d_done)
     # outer: the handler sits BEHIND group_by, nothing handles the error inside the group pipeline: it is unhandled where the
     # group stream is demultiplexed and must surface as on_error there, exactly as with no handler at all
-    inner = [failing_op(op), drive.tap(between)] + ([] if outer else hops) + tail_ops(tail) + [drive.tap(out_tap)]
+    post = [rs.ops.map(lambda i: i), rs.ops.filter(lambda i: True)] if case.get('post') else []       # pass-through stages behind the handler
+    inner = [failing_op(op), drive.tap(between)] + ([] if outer else hops + post) + tail_ops(tail) + [drive.tap(out_tap)]
     if driver == 'grouped':
         pipeline = rs.state.with_memory_store([rs.ops.group_by(lambda i: i[0], inner)] + (hops if outer else []))
     elif driver == 'store':
         pipeline = rs.state.with_memory_store(inner)
     else:
         pipeline = rs.ops.multiplex(inner)
-    r = drive.collect(rx.from_(items).pipe(pipeline))
+    if handler == 'router' and case.get('late_dead'):
+        # a live source: the data pipeline is subscribed first, the dead-letter observable next, then the items arrive
+        from rx.subject import Subject
+        src = Subject()
+        r = drive.collect(src.pipe(pipeline))
+        errors.subscribe(on_next=d_next, on_error=d_err, on_completed=d_done)
+        import contextlib, io
+        with contextlib.redirect_stdout(io.StringIO()):
+            try:
+                for it in items:
+                    src.on_next(it)
+                src.on_completed()
+            except Exception as e:
+                r.raised = e
+    else:
+        r = drive.collect(rx.from_(items).pipe(pipeline))
+    r.items = [norm(x) for x in r.items]
 
     # ---- reference
     keys = [] if driver == 'grouped' else [0]
@@ -227,13 +260,13 @@ def run(case):
         for x in streams[k][pos[k]]:
             tail_inputs[k].append(x)
             so, _ = ref_tail(tail, tail_inputs[k])
-            exp_main += so[-1]
+            exp_main += norm(so[-1])
         pos[k] += 1
     for k in keys:
         _, co = ref_tail(tail, tail_inputs[k])
-        exp_main += co
+        exp_main += norm(co)
 
-    labels = ['op:' + op, 'handler:' + handler + ('(outer)' if outer else ''), 'tail:' + tail, 'driver:' + driver, 'failing=%d' % min(len(failing), 3)]
+    labels = (['late-dead-letter'] if handler == 'router' and case.get('late_dead') else []) + ['op:' + op, 'handler:' + handler + ('(outer)' if outer else ''), 'tail:' + tail, 'driver:' + driver, 'failing=%d' % min(len(failing), 3)]
     if failing and len(failing) == len(items):
         labels.append('all-fail')
     mixed = any(any(i[2] for i in per[k]) and any(not i[2] for i in per[k]) for k in keys)
@@ -279,7 +312,8 @@ def case_gen(draw):
     items = [[draw(st.integers(0, 2)), draw(st.integers(-5, 5)), draw(st.integers(0, 2).map(lambda x: int(x == 0)))] for _ in range(n)]
     return {'op': op, 'handler': draw(st.sampled_from(HANDLERS)), 'tail': tail, 'driver': driver, 'items': items,
             'outer': driver == 'grouped' and draw(st.integers(0, 3)) == 0,
-            'mapval': draw(st.sampled_from(['tagged', 'tagged', 'none', 'zero', 'false', 'empty'])),
+            'mapval': draw(st.sampled_from(['tagged', 'tagged', 'none', 'zero', 'false', 'empty', 'exc'])),
+            'post': draw(st.booleans()), 'late_dead': draw(st.booleans()),
             'shared_exc': draw(st.integers(0, 3)) == 0}
 
 
